@@ -367,6 +367,7 @@ func runScen(s scen, emit bool) bool {
 	var peerLn net.Listener
 	var peerConns []net.Conn
 	var peerMu sync.Mutex
+	peerClosed := false
 	var dialed int32
 	if core != nil && (s.Dials > 0 || s.Race == "dialrace") {
 		peerLn, _ = net.Listen("tcp", "127.0.0.1:0")
@@ -377,7 +378,11 @@ func runScen(s scen, emit bool) bool {
 					return
 				}
 				peerMu.Lock()
-				peerConns = append(peerConns, c)
+				if peerClosed {
+					c.Close() // accepted while the harness was already cleaning up
+				} else {
+					peerConns = append(peerConns, c)
+				}
 				peerMu.Unlock()
 			}
 		}()
@@ -523,6 +528,7 @@ func runScen(s scen, emit bool) bool {
 		if peerLn != nil {
 			peerLn.Close()
 			peerMu.Lock()
+			peerClosed = true
 			for _, c := range peerConns {
 				c.Close()
 			}
